@@ -6,6 +6,7 @@ CONSTANTS
   MaxRuns = 2
   MaxClr = 1
   Dev = {}
+  Slows = {0}
   Export = TRUE
 INIT Init
 NEXT Next
